@@ -47,7 +47,7 @@ def plan(tier, seed):
     q = tier == 'quick'
     n = 15
     specs = [{'shard': i, 'of': n, 'timeout': 600 if q else 7200, 'budget_s': 45 if q else 900} for i in range(n)]
-    specs.append({'shard': 0, 'of': 1, 'asan': True, 'flavour': 'asan', 'timeout': 600 if q else 7200, 'budget_s': 25 if q else 900})
+    specs.append({'shard': 0, 'of': 1, 'asan': True, 'flavour': 'asan', 'timeout': 600 if q else 7200, 'budget_s': 25 if q else 600})
     return specs
 
 # ------------------------------------------------------------------ CPU adapter around the code under test
@@ -638,7 +638,7 @@ def bit_hl_executed(R, st, meta, cfg):
 def run(shard, spec):
     quick = shard.tier == 'quick'
     if spec.get('asan'):
-        n = 8 if quick else 300
+        n = 8 if quick else 150
         for case in range(n):
             run_case(shard, 'asan%d' % case, asan=True)
             if shard.out_of_time():
